@@ -373,6 +373,7 @@ func (ex *Exec) Concretize(t *term.T, max int, what string) *term.T {
 		return k
 	}
 	ex.flushObs()
+	ex.S.Declare(t)
 	var vals []uint64
 	var excl []*term.T
 	for {
